@@ -126,6 +126,9 @@ type Client struct {
 	log                  util.Logger
 	// for testing
 	mockupDialFunc func() (net.Conn, error)
+	// The transaction store has a single slot for PINGREQ exchanges (the
+	// PINGRESP carries nothing to match it by): one exchange at a time.
+	pingLock sync.Mutex
 }
 
 // NewClient sets up a new client according to the provided configuration.
@@ -489,6 +492,8 @@ func (c *Client) PublishPredefined(topicID uint16, payload []byte, qos uint8, re
 
 // Ping sends a PING packet to the MQTT-SN gateway.
 func (c *Client) Ping() error {
+	c.pingLock.Lock()
+	defer c.pingLock.Unlock()
 	transaction := newPingTransaction(c)
 	ping := pkts1.NewPingreq(nil)
 	c.transactions.StoreByType(pkts.PINGREQ, transaction)
